@@ -23,3 +23,8 @@ CONTROLS = [
          edits=[("cdd/shared/pure_utils.py", "def strip_split(param, sep):", "def strip_split(param, sep, _acc=[]):\n    _acc.append(param)")],
          expect=r"state.mutable-default@cdd.shared.pure_utils:strip_split"),
 ]
+CONTROLS += [
+    dict(name="a callee that receives the set of parameter names iterates it into a list (interprocedural)",
+         edits=[("cdd/class_/utils/emit_utils.py", "        self.node_ids = node_ids\n", "        self.node_ids = node_ids\n        self.ordered_ids = list(node_ids)\n")],
+         expect=r"order@cdd.class_.utils.emit_utils:RewriteName.__init__"),
+]
